@@ -383,10 +383,19 @@ pub fn defects(rng: &mut Rng, p: &Program, strict: bool, tag: &str) -> Vec<Defec
         let mut q = p.clone();
         q.body = Expr::List(vec![Expr::Let(kind, cyc, Box::new(v(&a))), p.body.clone()]);
         out.push(Defect { class: "assign_cycle", where_: format!("{kind:?}"), names: vec![a.clone(), b.clone(), c.clone()], prog: q, marker_twin: None, reachable: true });
-        let dup = match rng.below(2) {
-            0 => vec![(Pat::Var(a.clone(), Ty::Int), one.clone()), (Pat::Var(a.clone(), Ty::Int), Expr::Lit(Lit::Int(2)))],
-            _ => vec![(Pat::Pair(Box::new(Pat::Var(a.clone(), Ty::Int)), Box::new(Pat::Var(b.clone(), Ty::Int))), Expr::Prim("c", vec![one.clone(), one.clone()])), (Pat::Var(b.clone(), Ty::Int), Expr::Lit(Lit::Int(2)))],
+        // the repeated name directly after the first one, or with 1..3 other bindings in between; plain or inside a pattern
+        let mut dup = match rng.below(2) {
+            0 => vec![(Pat::Var(a.clone(), Ty::Int), one.clone())],
+            _ => vec![(Pat::Pair(Box::new(Pat::Var(a.clone(), Ty::Int)), Box::new(Pat::Var(b.clone(), Ty::Int))), Expr::Prim("c", vec![one.clone(), one.clone()]))],
         };
+        for j in 0..rng.below(4) {
+            dup.push((Pat::Var(format!("cd_{tag}_{j}"), Ty::Int), Expr::Lit(Lit::Int(10 + j as i64))));
+        }
+        if rng.chance(1, 3) {
+            dup.push((Pat::Pair(Box::new(Pat::Var(format!("ce_{tag}"), Ty::Int)), Box::new(Pat::Var(a.clone(), Ty::Int))), Expr::Prim("c", vec![one.clone(), Expr::Lit(Lit::Int(2))])));
+        } else {
+            dup.push((Pat::Var(a.clone(), Ty::Int), Expr::Lit(Lit::Int(2))));
+        }
         let mut q2 = p.clone();
         q2.body = Expr::List(vec![Expr::Let(kind, dup, Box::new(v(&a))), p.body.clone()]);
         out.push(Defect { class: "assign_duplicate", where_: format!("{kind:?}"), names: vec![a.clone(), b.clone()], prog: q2, marker_twin: None, reachable: true });
